@@ -24,6 +24,13 @@ def run_property(pid, tier):
         from ..pyvc import selftest
 
         selftest.run(rep, only_modules=mods)
+        # engine unit tests: expected verdicts (proved / refuted / outside the subset) on tiny functions
+        import subprocess, sys
+
+        r = subprocess.run([sys.executable, "-m", "vt.pyvc.unit.run"], capture_output=True, text=True, timeout=600)
+        rep.extra["engine_unit_tests"] = r.stdout.strip().splitlines()[-12:]
+        if r.returncode != 0:
+            rep.crash("engine unit tests: a verdict differs from the expected one: " + r.stdout[-600:])
     try:
         bounded = importlib.import_module(f"vt.props.{pid.lower()}_bounded")
     except ModuleNotFoundError as e:
